@@ -1,5 +1,34 @@
-(* C07 — a hand can be resumed from its serialised state. *)
-From PF Require Import Base ModelGame ProofsGameBasic.
+(* C07 — a hand can be resumed from its serialised state at any wait point.
+   erase g : the state as JSON carries it — Pot.Levels of the published pots (json:"-") and the
+   unexported internals of a stored settlement result are dropped, everything else is kept.
+   step is the whole reaction of the engine to one operation, from wait point to wait point. *)
+From PF Require Import Base ModelGame ProofsGameBasic ProofsErase.
+
+(* a game rebuilt from its JSON reacts to the next operation exactly like the in-memory game:
+   same outcome, same (serialised) state *)
+Theorem C07_step :
+  forall g o,
+    erase (fst (step (erase g) o)) = erase (fst (step g o)) /\ snd (step (erase g) o) = snd (step g o).
+Proof. exact step_after_erase. Qed.
+Print Assumptions C07_step.
+
+(* ... and so for any number of restarts / backend hops between any two operations of any history:
+   (cut, op) means "the state goes through JSON before op" *)
+Theorem C07_any_cuts :
+  forall g (ops : list (bool * op)),
+    erase (run_with_cuts g ops) = erase (run g (map snd ops)).
+Proof. intros g ops. apply cuts_do_not_matter. apply sim_refl. Qed.
+Print Assumptions C07_any_cuts.
+
+(* the backend that rebuilds the game for every single call is the all-cuts case *)
+Theorem C07_stateless_backend :
+  forall g (ops : list op),
+    erase (run_with_cuts g (map (fun o => (true, o)) ops)) = erase (run g ops).
+Proof.
+  intros g ops. rewrite (C07_any_cuts g (map (fun o => (true, o)) ops)). rewrite map_map. simpl.
+  rewrite map_id. reflexivity.
+Qed.
+Print Assumptions C07_stateless_backend.
 
 (* the engine is a function of state and operation: same deck, same operations, same state *)
 Theorem C07_deterministic :
@@ -7,7 +36,6 @@ Theorem C07_deterministic :
 Proof. intros; subst; reflexivity. Qed.
 Print Assumptions C07_deterministic.
 
-(* dropping what JSON does not carry is idempotent and touches neither players nor meta *)
 Theorem C07_erase_idempotent : forall g, erase (erase g) = erase g.
 Proof. exact erase_idem. Qed.
 Print Assumptions C07_erase_idempotent.
